@@ -9,6 +9,9 @@ import (
 // fresh alias aN; select-list items are aliased x1..xW.
 type Renderer struct {
 	n int
+	// TableAliases collects the aliases given to base tables of the outermost FROM clause (for hints).
+	TableAliases []string
+	depth        int
 }
 
 type scope []string // SQL name of each ordinal of the current FROM row
@@ -112,6 +115,9 @@ func (r *Renderer) from(f *From, outer []scope) (string, scope) {
 		return "", nil
 	case "table":
 		a := r.alias()
+		if r.depth == 0 && len(outer) == 0 {
+			r.TableAliases = append(r.TableAliases, a)
+		}
 		sc := make(scope, f.W)
 		for i := range sc {
 			sc[i] = fmt.Sprintf("%s.c%d", a, i+1)
@@ -119,7 +125,9 @@ func (r *Renderer) from(f *From, outer []scope) (string, scope) {
 		return fmt.Sprintf("%s AS %s", f.Name, a), sc
 	case "derived":
 		a := r.alias()
+		r.depth++
 		inner := r.query(f.Q, nil)
+		r.depth--
 		sc := make(scope, f.Q.Width())
 		for i := range sc {
 			sc[i] = fmt.Sprintf("%s.x%d", a, i+1)
